@@ -50,6 +50,7 @@ def gen(rng, tier):
         k_ = rng.randint(0, 8)
         spec["ask_again"] = rng.choice([[["remove"], ["insert", [k_]]], [["insert", [k_]]], [["insert", [k_, k_ + 2]], ["remove"], ["insert", [k_ + 1]]]])
     spec["unit_s"] = rng.choice([60, 1, 3600, 86400, 90])
+    spec["last_us"] = rng.choice([0, 0, 250000, 1, 999999])
     spec["last"] = [2020 + rng.randint(0, 5), rng.randint(1, 12), rng.randint(1, 28), rng.randint(0, 23), rng.randint(0, 59)]
     return spec
 
@@ -174,7 +175,7 @@ def run(spec):
                     res.count("resource_absence_run")
                 check_object(res, kind, o_, seq, ns, init, unit, tag)
         # plotly rows: index k -> init + k*unit
-        for margin in (1.0, 0.5):
+        for margin in (1.0, 0.5, 0.0):
             for kind, objs in (("task", ix.tasks), ("component", ix.comps)):
                 for o_ in objs:
                     seq = [int(s) for s in o_.state_record_list]
@@ -296,7 +297,7 @@ def run(spec):
     init, unit = p.init_datetime, p.unit_timedelta
     # set_last_datetime
     y, mo, d_, h, mi = spec.get("last", [2021, 1, 1, 0, 0])
-    last = datetime.datetime(y, mo, d_, h, mi, 0)
+    last = datetime.datetime(y, mo, d_, h, mi, 0, int(spec.get("last_us", 0)))
     if n >= 1:
         oc = D.call(lambda: p.set_last_datetime(last))
         res.count("last_datetime_checked")
